@@ -1,5 +1,6 @@
 import GoSQLXModel.Driver.LoopsOp
 import GoSQLXModel.Driver.LspOp
+import GoSQLXModel.Driver.LintOp
 /-! Dispatch table of the line-protocol driver. Each op parses its payload, runs the executable
     model and prints a canonical one-line answer. -/
 namespace GoSQLXModel.Driver
@@ -9,6 +10,7 @@ def dispatch (op payload : String) : String :=
   | "ping" => "pong " ++ payload
   | "loops" => loopsOp payload
   | "lsp" => lspOp payload
+  | "lintfix" => lintfixOp payload
   | _ => "bad-op"
 
 end GoSQLXModel.Driver
